@@ -184,6 +184,20 @@ pub fn observe_text(o: &mut Outcome, case: &Value, text: &str, feats: &[String],
         Ok(Ok(d)) => { lossy_status = "ok"; lyc = real_lossy_content(d); }
         Ok(Err(_)) => { lossy_status = "err"; }
     }
+    // the two PARAGRAPH readers: when both accept they report the same fields; a text of exactly one paragraph that
+    // both document readers accept is accepted by both paragraph readers
+    {
+        let a = guarded("lossless::Paragraph::from_str", || deb822_lossless::Paragraph::from_str(text).ok().map(|p| p.items().map(|(k, v)| (k, v.split('\n').filter(|l| !l.trim().is_empty()).map(|l| l.to_string()).collect::<Vec<_>>())).collect::<Vec<_>>()));
+        let b = guarded("lossy::Paragraph::from_str", || deb822_lossless::lossy::Paragraph::from_str(text).ok().map(|p| p.iter().map(|(k, v)| (k.to_string(), v.split('\n').filter(|l| !l.trim().is_empty()).map(|l| l.to_string()).collect::<Vec<_>>())).collect::<Vec<_>>()));
+        if let (Ok(a), Ok(b)) = (a, b) {
+            match (&a, &b) {
+                (Some(x), Some(y)) if x != y => o.v("C06", "agree", "lossy::Paragraph::from_str", "mismatch", feats, text, format!("lossless paragraph {:?} lossy paragraph {:?}", x, y)),
+                // (a text of SEVERAL paragraphs: the lossy paragraph reader refuses it, the lossless one takes the first - by design)
+                (Some(_), None) | (None, Some(_)) if errs.is_empty() && lossy_status == "ok" && llc.len() == 1 => o.v("C06", "agree", "lossy::Paragraph::from_str", "mismatch", feats, text, format!("both document readers accept the text; lossless paragraph reader accepts: {}, lossy paragraph reader accepts: {}", a.is_some(), b.is_some())),
+                _ => {}
+            }
+        }
+    }
     // the lossy reader's Read-based entry point reads what its from_str reads
     match guarded("lossy::Deb822::from_reader", || deb822_lossless::lossy::Deb822::from_reader(text.as_bytes())) {
         Err(m) => o.v("C02", "total", "lossy::Deb822::from_reader", "panic", feats, text, m),
@@ -400,6 +414,24 @@ pub fn run_files(case: &Value, _seed: u64) -> Outcome {
     o.nontrivial = text.len() > 10;
     let feats = vec![];
     observe_text(&mut o, case, &text, &feats, true);
+    // a file that is not a regular file (a FIFO: its reported size is 0): from_file reads what is written into it
+    if id <= 6 {
+        let fifo = std::env::temp_dir().join(format!("verif-fifo-{}-{}", std::process::id(), id));
+        let _ = std::fs::remove_file(&fifo);
+        let c = std::ffi::CString::new(fifo.to_string_lossy().as_bytes()).unwrap();
+        if unsafe { libc::mkfifo(c.as_ptr(), 0o600) } == 0 {
+            let (t2, f2) = (text.clone(), fifo.clone());
+            let w = std::thread::spawn(move || { if let Ok(mut f) = std::fs::OpenOptions::new().write(true).open(&f2) { use std::io::Write; let _ = f.write_all(t2.as_bytes()); } });
+            let r = guarded("Deb822::from_file_relaxed", || Deb822::from_file_relaxed(&fifo).map(|(d, _)| d.to_string()));
+            let _ = w.join();
+            let _ = std::fs::remove_file(&fifo);
+            match r {
+                Ok(Ok(p)) => if p != text { o.v("C01", "read_eq", "Deb822::from_file_relaxed", "mismatch", &vec!["fifo".to_string()], &text, format!("read through a FIFO, printed {:?}", p.chars().take(80).collect::<String>())); },
+                Ok(Err(e)) => o.v("C01", "read_eq", "Deb822::from_file_relaxed", "mismatch", &vec!["fifo".to_string()], &text, format!("read through a FIFO failed: {}", e)),
+                Err(m) => o.v("C02", "total", "Deb822::from_file_relaxed", "panic", &vec!["fifo".to_string()], &text, m),
+            }
+        }
+    }
     // scaled variants (no model prediction needed: fidelity, strict-iff-no-error and read = from_str are judged on the
     // real readers alone): tens of KiB, multi-byte characters at every alignment relative to any buffer size
     if id <= 24 {
